@@ -156,7 +156,10 @@ class ResourcePool:
                 container.suspend_container()
                 self.suspending_containers.append(container)
                 self.active_containers.remove(container)
-        
+            # containers left the active list: their memory no longer counts
+            # as consumed by running containers
+            self._reconcile_consumed_ram()
+
         results = []
         if len(assignments) > 0:
             self.verify_valid_assignment(assignments)
